@@ -82,6 +82,8 @@ var (
 	octalTokRE  = regexp.MustCompile(`\b0[oO][0-7_]+\b`)
 )
 
+var expectationRE = regexp.MustCompile(`(?m)^\s*/\*! .* \*/\s*$`)
+
 type recommended struct {
 	token string
 	since int
@@ -193,7 +195,9 @@ func c15(args []string) int {
 				}
 				srcAll := ""
 				for _, f := range p.Files {
-					srcAll += f.Src + "\n"
+					// the examples' /*! expected warning */ comments are not analysed code: a recommendation must
+					// not count as "quoted from the file" just because the expectation spells it out
+					srcAll += expectationRE.ReplaceAllString(f.Src, "") + "\n"
 				}
 				for _, x := range d {
 					for _, rec := range recommendations(api, x, srcAll) {
